@@ -57,7 +57,33 @@ fn show<'a, I: Iterator<Item = (String, String)>>(it: I) -> String {
     format!("[{}]", v.join(","))
 }
 
+/// `macro_rules!` hygiene covers local variables, NOT items: a `const`/`static`/`fn` the expansion defines shadows a
+/// caller-side item of the same name inside the key and value expressions. The caller here owns items with the names
+/// an implementation is most likely to pick; every one of them must arrive unchanged.
+fn macro_hygiene_ok() -> bool {
+    const COUNT: i64 = 5;
+    const LEN: i64 = 6;
+    const N: i64 = 7;
+    const CAPACITY: i64 = 8;
+    const SIZE: i64 = 9;
+    const ARGS: i64 = 10;
+    const PAIRS: i64 = 11;
+    const VALUE: i64 = 12;
+    const KEY: &str = "h";
+    static ARGS_LEN: i64 = 13;
+    fn len() -> i64 {
+        14
+    }
+    let a = fluent_args!["a" => COUNT, "b" => LEN, "c" => N, "d" => CAPACITY, "e" => SIZE, "f" => ARGS, "g" => PAIRS, KEY => VALUE,
+                         "i" => ARGS_LEN, "j" => len()];
+    let want = [("a", 5), ("b", 6), ("c", 7), ("d", 8), ("e", 9), ("f", 10), ("g", 11), ("h", 12), ("i", 13), ("j", 14)];
+    want.iter().all(|(k, v)| matches!(a.get(*k), Some(FluentValue::Number(n)) if n.value == *v as f64)) && a.iter().count() == want.len()
+}
+
 fn via_macro<'a>(ps: &'a [(String, Tok)]) -> Option<FluentArgs<'a>> {
+    if !macro_hygiene_ok() {
+        return None;
+    }
     // key and value expressions with a side effect (each pulls the next item of an iterator): an expansion that
     // evaluates an expression twice, or not at all, shifts every later pair
     let ki = std::cell::RefCell::new(ps.iter().map(|p| p.0.as_str()));
@@ -120,10 +146,33 @@ fn run(payload: &str) -> String {
                     None => "none".to_string(),
                 }
             }
-            Some(Op::Iter) => show(
-                args.iter()
-                    .map(|(k, v)| (hex_enc(k.as_bytes()), canon_val(v))),
-            ),
+            Some(Op::Iter) => {
+                // the Iterator PROTOCOL: whichever way the iterator is consumed (skip, step_by, nth, piecewise, count,
+                // last, size_hint), it walks the same sequence as the plain loop
+                let plain: Vec<&str> = args.iter().map(|(k, _)| k).collect();
+                let n = plain.len();
+                let mut ok = args.iter().count() == n && args.iter().last().map(|(k, _)| k) == plain.last().copied();
+                let (lo, hi) = args.iter().size_hint();
+                ok &= lo <= n && hi.map_or(true, |h| h >= n);
+                for k in 0..=n.min(3) {
+                    ok &= args.iter().skip(k).map(|(k, _)| k).collect::<Vec<_>>() == plain[k.min(n)..];
+                    let mut it = args.iter();
+                    let got = it.nth(k).map(|(k, _)| k);
+                    ok &= got == plain.get(k).copied();
+                    ok &= it.map(|(k, _)| k).collect::<Vec<_>>() == plain[(k + 1).min(n)..];
+                }
+                for step in 1..=3usize {
+                    ok &= args.iter().step_by(step).map(|(k, _)| k).collect::<Vec<_>>() == plain.iter().step_by(step).copied().collect::<Vec<_>>();
+                }
+                let mut it = args.iter();
+                let first = it.next().map(|(k, _)| k);
+                ok &= first == plain.first().copied() && it.skip(1).map(|(k, _)| k).collect::<Vec<_>>() == plain[2.min(n)..];
+                if !ok {
+                    "ITER-PROTOCOL-DISAGREE".to_string()
+                } else {
+                    show(args.iter().map(|(k, v)| (hex_enc(k.as_bytes()), canon_val(v))))
+                }
+            }
             Some(Op::Into) => {
                 let a = std::mem::take(&mut args);
                 show(
